@@ -15,12 +15,23 @@
 EXTENDS Integers, Sequences, FiniteSets, SequencesExt
 
 \* "ufile": a real file object the USER opened (binary or text mode) and handed over; the builder never closes it
-Kinds == {"path", "binary", "text", "custom", "ufile"}
+\* "console": the bundled ConsoleWriter on a captured stdout / stderr (binary buffer or text stream), flushed on every write
+\* "log": the bundled LogWriter -- one log record per statement, carrying the statement's text without surrounding blanks
+Kinds == {"path", "binary", "text", "custom", "ufile", "console", "log"}
 RangeOf(s) == {s[i] : i \in DOMAIN s}
 IsPrefixOf(s, t) == Len(s) <= Len(t) /\ SubSeq(t, 1, Len(s)) = s
 
 \* after a write: unbuffered outputs show everything; a path-based file may lag behind (buffering) but never shows anything else
 DeliveredOK(kind, vis, exp) == IF kind \in {"path", "ufile"} THEN IsPrefixOf(vis, exp) ELSE vis = exp
+\* what a "log" output shows for one statement: its bytes without leading / trailing blanks, one record (rendered with a
+\* newline by the observer) per statement -- also for a blank statement
+Blank == {9, 10, 11, 12, 13, 28, 29, 30, 31, 32}
+LogForm(data) ==
+  LET keep == {i \in DOMAIN data : data[i] \notin Blank} IN
+  IF keep = {} THEN <<10>>
+  ELSE LET lo == CHOOSE i \in keep : \A j \in keep : i <= j
+           hi == CHOOSE i \in keep : \A j \in keep : j <= i
+       IN SubSeq(data, lo, hi) \o <<10>>
 \* after flush / teardown, for a writer registered at that moment
 FlushedOK(vis, exp) == vis = exp
 =============================================================================
